@@ -15,7 +15,8 @@ Inductive case :=
        [degenerate]: the body carries a number of magnitude >= 1e150 (sums may overflow: a 500 is then accepted) *)
 | GAdv (requests : list GrpcCase.cgreq) (responses : list GrpcCase.cgresp)
 | Bytes (what : N) (returned panicked : bool)
-    (* raw bytes into a CSV reader (0 names, 1 local trust, 2 trust vector), the CLI (3), the playground (4):
+    (* raw bytes into a CSV reader (0 names, 1 local trust, 2 trust vector), the CLI (3), the playground (4), every gRPC
+       handler on empty messages (5), the server-side CSV loaders behind file:// references (6):
        [returned] = a value or an error came back / exit status 0 / a complete 200 or 400 page *)
 | Huge (what : N) (survived : bool).
     (* an index or size far beyond memory, run in a child process under an address-space limit *)
